@@ -253,8 +253,13 @@ def bind2_transforms(ctx, modules: Iterable[str]) -> int:
             if in_axes is not None and in_axes.op in ("tuple", "list"):
                 if len(in_axes.args) != len(vargs):
                     problems.append(f"in_axes has {len(in_axes.args)} entries for {len(vargs)} argument(s)")
+                def axis_ok(a):
+                    # an int / None, or the same per leaf of a pytree argument: ((0, 0), None)
+                    if a.op == "const":
+                        return a.args[0] is None or isinstance(a.args[0], int)
+                    return a.op in ("tuple", "list") and all(axis_ok(x) for x in a.args)
                 for a in in_axes.args:
-                    if not (a.op == "const" and (a.args[0] is None or isinstance(a.args[0], int))):
+                    if not axis_ok(a):
                         problems.append(f"unmodelled in_axes entry {show(a)}")
             arity = None
             cands = w.ev.resolve_callees(f, e.frame) if f.op != "closure" else None
@@ -287,7 +292,8 @@ def bind2_transforms(ctx, modules: Iterable[str]) -> int:
                 clo = w.ev.closures[f.args[0]]
                 a = clo.node.args
                 npar = len(a.posonlyargs) + len(a.args)
-                if npar != 2:
+                nreq = npar - len(a.defaults)         # parameters bound by a default (h1=h1) are not scan arguments
+                if not (nreq <= 2 <= npar):
                     problems.append(f"scan body takes {npar} parameters (needs carry, x)")
                 if isinstance(clo.node, ast.FunctionDef):
                     from ..model import returned_values
@@ -329,7 +335,7 @@ def bind2_transforms(ctx, modules: Iterable[str]) -> int:
                 if f.op == "closure":
                     a = w.ev.closures[f.args[0]].node.args
                     npar = len(a.posonlyargs) + len(a.args)
-                    if npar != nprim:
+                    if not (npar - len(a.defaults) <= nprim <= npar):
                         problems.append(f"differentiated closure takes {npar} parameters, {nprim} primals given")
                 else:
                     cands = w.ev.resolve_callees(f, e.frame)
